@@ -1,0 +1,13 @@
+//go:build !verif
+
+package bcl
+
+// Verification hooks (see verif_on.go); compiled to nothing without the "verif" build tag.
+
+func verifEv(g, kind string, a, b int, inst any) {}
+
+func verifVM(vm *vm) {}
+
+func verifErrClass(err error) int { return 0 }
+
+func verifB(b bool) int { return 0 }
